@@ -5,7 +5,7 @@
 From Coq Require Import List ZArith Bool Lia.
 From PQ Require Import CopyPath.Splice.
 Import ListNotations.
-Open Scope Z_scope.
+Local Open Scope Z_scope.
 
 Section Proofs.
   Variable B : Type.
